@@ -451,6 +451,14 @@ func (env *ExprEnv) eval(e ast.Expr) TV {
 			return TV{T: fmt.Sprintf("(bvnot %s)", x.T), Ty: x.Ty, Sort: x.Sort}
 		case token.ADD:
 			return x
+		case token.AND:
+			// a struct-valued field of an object is denoted by the reference of the sub-object
+			if pt, ok := x.Ty.(*types.Pointer); ok {
+				if _, isS := pt.Elem().Underlying().(*types.Struct); isS {
+					return x
+				}
+			}
+			fail("& is supported on struct-valued fields only")
 		}
 	case *ast.StarExpr:
 		x := env.eval(e.X)
